@@ -818,7 +818,8 @@ def next_open(clock):
 PERIODIC_PREFIX = (('acct_sub', '900000'), ('create', '1'), ('create', '2'), ('pf_sub', '1', '300000'),
                    ('pf_sub', '2', '300000'), ('tick', 3))
 PERIODIC_EVENTS = [('submit', '1', 'A', 3), ('submit', '1', 'A', -3), ('submit', '1', 'Bq', 5), ('submit', '2', 'A', -8),
-                   ('submit', '2', 'Bq', 2), ('tick', 3), ('quotes', 1), ('quotes', 0), ('pf_sub', '1', '99.995'),
+                   ('submit', '2', 'Bq', 2), ('submit', '2', 'A', 40000),      # the last one costs more than the cash held
+                   ('tick', 3), ('quotes', 1), ('quotes', 0), ('pf_sub', '1', '99.995'),
                    ('pf_wd', '1', '16.667')]
 
 
@@ -836,12 +837,23 @@ def periodic_items(fees, max_cycle=2, repeats=(40, 150)):
 
 def periodic_point(item, own_prefix, df_check=False):
     """replays prefix + cycle x r for each r in repeats; full comparison after the last event of each"""
+    import contextlib
+    import io
+    from qstrader import settings as _settings
     fee = tuple(item['fee'])
     cyc = [tuple(e) for e in item['cycle']]
     viols, n = [], 0
-    for r in item['repeats']:
+    for k, r in enumerate(item['repeats']):
         hist = PERIODIC_PREFIX + tuple(cyc) * r
-        m, fails = build(fee, hist, check_last=True)
+        # the shorter run of each pair is made with event printing ON (the library default; output discarded):
+        # what is printed must not change what is done
+        with contextlib.redirect_stdout(io.StringIO()):
+            if k == 0:
+                _settings.set_print_events(True)
+            try:
+                m, fails = build(fee, hist, check_last=True)
+            finally:
+                _settings.set_print_events(False)
         if df_check:
             fails = fails + m.compare_history_df(only=set(m.pfs))
         n += 1
